@@ -26,6 +26,7 @@ type keysJob struct {
 	Sig       []string `json:"sig"`
 	Passwords []string `json:"passwords"`
 	Wrong     []string `json:"wrong"`
+	Bulk      int      `json:"bulk"` // fresh pairs per format (empty password) that must parse: key bytes differ from pair to pair
 }
 
 type pair struct {
@@ -50,6 +51,47 @@ func cmdKeys(args []string, w *bufio.Writer) {
 	msg := "the quick brown fox \x00\xff jumps"
 	rep := func(kind, format, pw string, ok bool, detail string) {
 		emit(w, map[string]interface{}{"kind": kind, "format": format, "password": pw, "ok": ok, "detail": detail})
+	}
+	// many fresh pairs: the serialised halves of every pair must parse back (the bytes of a key are different every time:
+	// lengths, last bytes, line structure)
+	for _, f := range job.Enc {
+		bad := ""
+		for i := 0; i < job.Bulk && bad == ""; i++ {
+			priv, pub, err := utility.Keygen(config.PipeConfig{Encryption: f}, config.PasswordConfig{Password: ""})
+			if err != nil {
+				bad = "keygen: " + err.Error()
+				break
+			}
+			if _, err := keys.ParseRecipient(f, pub); err != nil {
+				bad = fmt.Sprintf("pair %d: public half (%d bytes, last byte %#x) does not parse: %v", i, len(pub), pub[len(pub)-1], err)
+			} else if _, err := keys.ParseIdentity(f, priv, ""); err != nil {
+				bad = fmt.Sprintf("pair %d: private half does not parse: %v", i, err)
+			}
+		}
+		if job.Bulk > 0 {
+			rep("enc-bulk", f, "", bad == "", bad)
+		}
+	}
+	for _, f := range job.Sig {
+		if f == "minisign" {
+			continue // every minisign parse costs a 1 GiB scrypt; its keys are fixed-length text
+		}
+		bad := ""
+		for i := 0; i < job.Bulk && bad == ""; i++ {
+			priv, pub, err := utility.Keygen(config.PipeConfig{Signature: f}, config.PasswordConfig{Password: ""})
+			if err != nil {
+				bad = "keygen: " + err.Error()
+				break
+			}
+			if _, err := keys.ParseSignerRecipient(f, pub); err != nil {
+				bad = fmt.Sprintf("pair %d: public half (%d bytes, last byte %#x) does not parse: %v", i, len(pub), pub[len(pub)-1], err)
+			} else if _, err := keys.ParseSignerIdentity(f, priv, ""); err != nil {
+				bad = fmt.Sprintf("pair %d: private half does not parse: %v", i, err)
+			}
+		}
+		if job.Bulk > 0 {
+			rep("sig-bulk", f, "", bad == "", bad)
+		}
 	}
 	for _, f := range job.Enc {
 		for _, pw := range job.Passwords {
